@@ -64,6 +64,8 @@ def parse_type(toks, selfty):
         return selfty if selfty is not None else ('unk', 'Self')
     if last == 'BUint': return T_big('UI')
     if last == 'BInt': return T_big('II')
+    m = re.match(r'^B(Ui|I)ntD(32|16|8)$', last)
+    if m: return ('bigd', 'UI' if m.group(1) == 'Ui' else 'II', int(m.group(2)))
     if last == 'bool': return BOOL
     if last in ('ExpType', 'u32'): return U32
     if last == 'usize': return ('prim', 'usize')
@@ -84,6 +86,8 @@ def norm_ty_key(t):
     if t[0] == 'u32': return 'u32'
     if t[0] == 'prim': return t[1]
     if t[0] == 'usize': return 'usize'
+    if t[0] == 'bool': return 'bool'
+    if t[0] == 'bigd': return 'B%sntD%d' % ('Ui' if t[1] == 'UI' else 'I', t[2])
     return '?'
 
 # ------------------------------------------------------------------------------------------------ helpers
@@ -166,6 +170,7 @@ class V:
 
 PRIM_BITS = {'u8': 8, 'u16': 16, 'u64': 64, 'u128': 128, 'i8': 8, 'i16': 16, 'i32': 32, 'i64': 64, 'i128': 128,
              'usize': 64, 'isize': 64}   # usize/isize: 64-bit target (the harness target), as in Model/Ops.lean
+PRIM_BITS_ALL = dict(PRIM_BITS, u32=32)
 CTX_NAMES = ('dbg', 'w', '_w', 'n', 'e', 'bw', 'T')
 PRELUDE_TRAITS = {'PartialEq', 'Eq', 'PartialOrd', 'Ord', 'Clone', 'Copy', 'Default', 'Into', 'From', 'TryFrom', 'TryInto',
                   'AsRef', 'AsMut', 'Iterator', 'ToString', 'ToOwned', 'Drop', 'Fn', 'FnMut', 'FnOnce', 'Sized', 'Send', 'Sync'}
@@ -184,50 +189,95 @@ class Symbols:
         self.free_fns_special = symbols.get('free_fns_special', {})
         self.prim_fns = symbols.get('prim_fns', {})
 
-    KEY_RE = re.compile(r'^(r?)(UI|II)::(?:([A-Za-z_0-9]+)(?:<(.*)>)?::)?([A-Za-z_0-9]+)$')
     PRIMS = ('u8', 'u16', 'u32', 'u64', 'u128', 'usize', 'i8', 'i16', 'i32', 'i64', 'i128', 'isize')
+    PRIM_SELF = PRIMS + ('bool', 'char', 'f32', 'f64')
+    KEY_RE = re.compile(r'^(r?)(UI|II|%s)::(?:([A-Za-z_0-9]+)(?:<(.*)>)?::)?([A-Za-z_0-9]+)$' % '|'.join(PRIM_SELF))
+    BIGD_RE = re.compile(r'^B(Ui|I)ntD(32|16|8)<[A-Z]>$')
+
+    @classmethod
+    def type_classes(cls, t):
+        """classes of a (normalised) type name, used by `arg` / `self` filters of trait rules"""
+        c = set()
+        if t in ('UI', 'II'): c.update(('big', 'bigany'))
+        if cls.BIGD_RE.match(t): c.update(('bigd', 'bigany'))
+        if t in cls.PRIMS:
+            c.add('prim'); c.add('iprim' if t[0] == 'i' else 'uprim')
+        if t in ('f32', 'f64'): c.add('float')
+        if t in ('bool', 'char'): c.add(t)
+        return c
+
+    @classmethod
+    def prim_subst(cls, prim):
+        """the generic scheme for models that take the primitive type as a VALUE: {pty} = its `PTy` (width, signedness),
+        {pbits}, {psigned}, {primT} = the `NumC.PrimT` constructor, {F} = the `FloatFmt` of f32 / f64"""
+        if prim in cls.PRIMS:
+            bits = PRIM_BITS[prim] if prim != 'u32' else 32
+            sg = 'true' if prim[0] == 'i' else 'false'
+            return {'prim': prim, 'pbits': str(bits), 'psigned': sg, 'pty': '\u27e8%d, %s\u27e9' % (bits, sg),
+                    'primT': 'Bnum.NumC.PrimT.%s' % prim}
+        if prim in ('f32', 'f64'):
+            return {'prim': prim, 'F': 'Bnum.fmtF%s' % prim[1:], 'pbits': prim[1:]}
+        return {'prim': prim}
 
     def lookup(self, key):
-        """-> {'lean': const, 'pre': [terms], 'post': [terms]} or None"""
+        """-> {'lean': const, 'pre': [terms], 'post': [terms], 'named': {binder: term}} or None"""
         ent = self.fn_map.get(key)
         if ent is not None:
             if ent == '': return None
             if isinstance(ent, str): ent = {'lean': ent}
-            return {'lean': ent['lean'], 'pre': list(ent.get('pre', [])), 'post': list(ent.get('post', []))}
+            return {'lean': ent['lean'], 'pre': list(ent.get('pre', [])), 'post': list(ent.get('post', [])), 'named': dict(ent.get('named', {}))}
         m = self.KEY_RE.match(key)
         if not m: return None
         sref, kind, trait, targs, method = m.groups()
+        sprim = kind not in ('UI', 'II')
         if trait is None:
-            if sref: return None
+            if sref or sprim: return None
             c = 'Bnum.%s.%s' % (kind, camel(method))
-            return {'lean': c, 'pre': [], 'post': []} if c in self.sigs else None
+            return {'lean': c, 'pre': [], 'post': [], 'named': {}} if c in self.sigs else None
         targs = targs or ''
         aref = targs.startswith('r') and targs[1:] in self.PRIMS + ('UI', 'II')
         base = targs[1:] if aref else targs
         classes = set()
         if targs == '': classes.update(('none', 'same'))
         if base == kind: classes.add('same')
-        if base in ('UI', 'II'): classes.add('big')
-        if base in self.PRIMS: classes.add('prim')
+        classes |= self.type_classes(base)
         classes.add('any')
+        sclasses = self.type_classes(kind) | {'anyself'}
         for rule in self.trait_rules:
             if trait not in rule['traits']: continue
             if rule.get('arg', 'any') not in classes: continue
+            if rule.get('selfty', 'big') not in sclasses: continue
             if rule.get('self') == 'val' and sref: continue
+            if 'methods' in rule and not re.match(rule['methods'], method): continue
+            bigk = kind if not sprim else (base if base in ('UI', 'II') else '')
             sub = {'m': camel(method), 'op': camel(method[:-7]) if method.endswith('_assign') else camel(method),
                    's': 'r' if sref else 'v', 'a': 'r' if aref else 'v', 'Ref': 'Ref' if aref else '',
-                   'prim': base, 'ks': 'true' if base == 'II' else 'false', 'K': kind[0], 'kind': kind}
+                   'prim': base, 'ks': 'true' if base == 'II' else 'false', 'K': bigk[:1], 'kind': bigk, 'trait': trait,
+                   'S': 'true' if kind == 'II' else 'false', 'BK': 'BUint' if bigk == 'UI' else 'BInt',
+                   'lk': 'buint' if bigk == 'UI' else 'bint'}
+            md = self.BIGD_RE.match(base)
+            if md: sub.update(dw=md.group(2), ks='true' if md.group(1) == 'I' else 'false', dkind='UI' if md.group(1) == 'Ui' else 'II')
+            # where the primitive type comes from: the trait argument (default), the impl's Self type, or the method name
+            pf = rule.get('prim_from', 'arg')
+            pname = base if pf == 'arg' else kind if pf == 'self' else method[len(pf.split(':', 1)[1]):] if method.startswith(pf.split(':', 1)[1]) else ''
+            if pname in self.PRIM_SELF: sub.update(self.prim_subst(pname))
             def fill(t):
                 for k2, v2 in sub.items(): t = t.replace('{%s}' % k2, v2)
                 return t
             c = fill(rule['lean'])
-            if c in self.sigs:
-                return {'lean': c, 'pre': [fill(x) for x in rule.get('pre', [])], 'post': [fill(x) for x in rule.get('post', [])]}
+            named = {k2: fill(v2) for k2, v2 in rule.get('named', {}).items()}
+            if c in self.sigs and not any(re.search(r'\{(?!w\}|N\}|M\})[A-Za-z]+\}', x) for x in named.values()):
+                return {'lean': c, 'pre': [fill(x) for x in rule.get('pre', [])], 'post': [fill(x) for x in rule.get('post', [])], 'named': named}
         return None
 
     def lean_for_key(self, key):
         r = self.lookup(key)
         return r['lean'] if r else None
+
+    def model_id(self, key):
+        """the model constant TOGETHER with the fixed arguments that select a member of a family"""
+        r = self.lookup(key)
+        return (r['lean'], tuple(r['pre']), tuple(r['post']), tuple(sorted(r['named'].items()))) if r else None
 
 # ------------------------------------------------------------------------------------------------ crate-level tables
 class FnTable:
@@ -239,7 +289,10 @@ class FnTable:
         self.bykey = {}
         self.dups = {}
         for f in crate.fns:
-            if f.self_kind is None: continue
+            if f.self_kind is None:
+                # impls of the crate's traits for PRIMITIVE types whose trait argument is a big integer
+                # (`impl CastFrom<BUint<N>> for u8`, `impl AsPrimitive<BInt<N>> for char`, `impl TryFrom<BInt<N>> for u16`)
+                if not (f.self_text in Symbols.PRIM_SELF and f.trait and f.trait_args in ('UI', 'II') and not f.self_ref): continue
             k = f.key
             if k in self.bykey:
                 # const_fn! emits a `nightly` and a non-`nightly` copy with the same body; keep the first, remember both
@@ -255,7 +308,9 @@ class FnTable:
         self.trait_names = set(f.trait for f in crate.fns if f.trait)
 
     def self_type(self, f):
-        if f.self_kind is None: return None
+        if f.self_kind is None:
+            if f.self_text in Symbols.PRIM_SELF: return parse_type([Tok('id', f.self_text)], None)
+            return None
         t = T_big(f.self_kind)
         return ('ref', t) if f.self_ref else t
 
@@ -277,9 +332,10 @@ class Seq:
         self.binds = []
 
 class Translator:
-    def __init__(self, table, syms, f, lhs_const, lhs_pre=(), lhs_post=()):
+    def __init__(self, table, syms, f, lhs_const, lhs_pre=(), lhs_post=(), lhs_named=None):
         self.tb = table; self.sy = syms; self.f = f
-        self.lhs = lhs_const; self.lhs_pre = list(lhs_pre); self.lhs_post = list(lhs_post)
+        self.lhs = lhs_const; self.lhs_pre = list(lhs_pre); self.lhs_post = list(lhs_post); self.lhs_named = dict(lhs_named or {})
+        self.prim_self = f.self_kind is None
         self.sig = syms.sigs[lhs_const]
         self.counter = 0
         self.ctx_used = []          # ordered ctx variable names used
@@ -343,6 +399,8 @@ class Translator:
         ty = NEVER
         for v in vs:
             if v.ty != NEVER: ty = v.ty; break
+        for v in vs:
+            if v.ty != NEVER and 'unk' not in repr(v.ty): ty = v.ty; break
         return terms, out, ty
 
     def ite(self, cond, terms, ty, out):
@@ -373,35 +431,26 @@ class Translator:
         for g in split_commas(f.generics):
             if g and is_id(g[0], 'const') and len(g) >= 4:
                 cgen.append((lean_ident(g[1].s), parse_type(g[3:], self.selfty)))
-        explicit = [p for p in self.sig['params'] if p[0] == '(']
-        nvals = len(rust_vals) + len(cgen) + len(self.lhs_pre) + len(self.lhs_post)
-        if len(explicit) < nvals:
-            raise Unsupported('model constant %s takes %d explicit arguments, the Rust function has %d parameters'
-                              % (self.lhs, len(explicit), nvals))
-        ctx = explicit[:len(explicit) - nvals]
-        for p in ctx:
-            if p[1] not in CTX_NAMES:
-                raise Unsupported('model constant %s: leading parameter `%s` is not a known context parameter' % (self.lhs, p[1]))
-        vals = explicit[len(explicit) - nvals + len(self.lhs_pre):len(explicit) - len(self.lhs_post)]
-        lhs_ctx_names = [p[1] for p in ctx]
-        # N
-        if 'n' in lhs_ctx_names: self.n_term = 'n'
-        else:
-            cand = None
-            for nm, ty in rust_vals:
-                if is_big(strip_ref(ty)): cand = nm; break
-            self.n_term = ('%s.length' % cand) if cand else 'n'
-        lhs_args = []
-        for p in ctx:
-            lhs_args.append(self.ctx_term(p[1]))
-        names = []
-        for x in self.lhs_pre:
-            x = self.fill_ctx(x); lhs_args.append(x); self.note_consts(x)
-        for (nm, ty), lp in zip(cgen + rust_vals, vals):
-            names.append((nm, lp[2], ty))
-            lhs_args.append(nm)
-        for x in self.lhs_post:
-            x = self.fill_ctx(x); lhs_args.append(x); self.note_consts(x)
+        # N: the digit count of Self.  A parameter of type `Self` / `BUint<N>` / `BInt<N>` gives it as `<param>.length`; a parameter
+        # whose const generic is another one (`from: BUint<M>`) does not.
+        def same_n(i):
+            if f.recv and i == 0: return not self.prim_self
+            toks = f.params[i - (1 if f.recv else 0)][1]
+            tx = text(toks).replace(' ', '')
+            return 'Self' in tx or '<N>' in tx
+        cand = None
+        for i, (nm, ty) in enumerate(rust_vals):
+            if is_big(strip_ref(ty)) and same_n(i): cand = nm; break
+        vals_in = [(nm, ty) for nm, ty in cgen + rust_vals]
+        order, ctx_names = self.layout(self.lhs, self.sig, self.lhs_named, self.lhs_pre, vals_in, self.lhs_post)
+        self.n_term = 'n' if ('n' in ctx_names or cand is None) else '%s.length' % cand
+        lhs_args = []; names = []
+        for how, p, x in order:
+            if how == 'ctx': lhs_args.append(self.ctx_term(p[1]))
+            elif how == 'fixed':
+                x = self.fill_ctx(x); lhs_args.append(x); self.note_consts(x)
+            else:
+                names.append((x[0], p[2], x[1])); lhs_args.append(x[0])
         for nm, ty in cgen: env[nm] = V(nm, ty)
         if f.recv: env['self'] = V('self', self.tb.recv_type(f))
         idx = 1 if f.recv else 0
@@ -411,6 +460,7 @@ class Translator:
         # &mut self functions: the model returns the new value of `self`
         self.mut_self = (f.recv == 'refmut')
         ret_ty = self.tb.ret_type(f)
+        self.ret_ty = ret_ty
         v = self.block(body, env, True)
         lean_out = self.sig['ret'].startswith('Bnum.Outcome')
         if v.out and not lean_out:
@@ -458,13 +508,17 @@ class Translator:
         v = self.stmts(list(stmts), tail, env, seq, tailpos)
         return self.finalize(seq, v)
 
+    CFGS = {'cfg(debug_assertions)': ('dbg', True), 'cfg(not(debug_assertions))': ('dbg', False),
+            # the model's `e` is "the target is little-endian" (Model/Endian.lean)
+            'cfg(target_endian="little")': ('e', True), 'cfg(not(target_endian="little"))': ('e', False),
+            'cfg(target_endian="big")': ('e', False), 'cfg(not(target_endian="big"))': ('e', True)}
+
     def cfg_of(self, attrs):
-        """-> True (debug_assertions), False (not(debug_assertions)), None; raises on other cfgs"""
+        """-> (context variable, value under which the statement is compiled) or None; raises on other cfgs"""
         r = None
         for a in attrs:
             if a.startswith('cfg('):
-                if a == 'cfg(debug_assertions)': r = True
-                elif a == 'cfg(not(debug_assertions))': r = False
+                if a in self.CFGS: r = self.CFGS[a]
                 else: raise Unsupported('statement attribute #[%s]' % a)
         return r
 
@@ -480,10 +534,10 @@ class Translator:
                     out = []
                     for s in stmts[i:]:
                         cc = self.cfg_of(s[-1])
-                        if cc is None or cc == flag:
-                            out.append(s[:-1] + ([],))
+                        if cc is None or cc[0] != c[0]: out.append(s)
+                        elif cc[1] == flag: out.append(s[:-1] + ([],))
                     return out
-                dbg = self.use_ctx('dbg')
+                dbg = self.use_ctx(c[0])
                 a = self.sub_stmts(filt(True), tail, env, tailpos)
                 b = self.sub_stmts(filt(False), tail, env, tailpos)
                 terms, out, ty = self.join([a, b])
@@ -650,33 +704,63 @@ class Translator:
     def template(self, tmpl, args, ty, kind=None):
         """tmpl: {"lean": const, "out": bool}; ctx from signature"""
         c = tmpl['lean']
-        return self.apply_const(c, args, ty, kind=kind, pre=tmpl.get('pre', []), post=tmpl.get('post', []))
+        return self.apply_const(c, args, ty, kind=kind, pre=tmpl.get('pre', []), post=tmpl.get('post', []), named=tmpl.get('named'))
 
     def fill_ctx(self, t):
         if '{w}' in t: t = t.replace('{w}', self.use_ctx('w'))
         if '{N}' in t: t = t.replace('{N}', par(self.N()))
+        if '{M}' in t: t = t.replace('{M}', self.use_ctx('m'))     # a second const generic of the impl (`impl<const N, const M>`)
         return t
 
-    def apply_const(self, c, args, ty, kind=None, pre=(), cargs=(), post=()):
+    def layout(self, c, sig, named, pre, vals, post):
+        """how the explicit binders of the Lean constant `c` are filled: -> ([(how, binder, x)], names of the context binders)
+        how = 'ctx' (a context parameter dbg / w / n / …), 'fixed' (x = a term of the symbol map: positional `pre`/`post`
+        or `named` by binder name), 'val' (x = the Rust value that goes there, in order).
+        One more convention: the Rust parameter of type `Formatter` is the model's binder `fl : Fmt.Flags` wherever it stands."""
+        explicit = [p for p in sig['params'] if p[0] == '(']
+        named = dict(named); vals = list(vals); byname = {}
+        for i, x in enumerate(vals):
+            ty = x[1] if isinstance(x, tuple) else x.ty
+            if strip_ref(ty)[0] == 'unk' and strip_ref(ty)[1].replace(' ', '').endswith('Formatter') and any(p[1] == 'fl' for p in explicit):
+                byname['fl'] = vals.pop(i); break
+        for k in named:
+            if not any(p[1] == k for p in explicit):
+                raise Unsupported('Lean constant %s has no explicit binder `%s`' % (c, k))
+        remaining = [i for i, p in enumerate(explicit) if p[1] not in named and p[1] not in byname]
+        npos = len(pre) + len(vals) + len(post)
+        if len(remaining) < npos:
+            raise Unsupported('Lean constant %s has %d free explicit parameters, the Rust side passes %d' % (c, len(remaining), npos))
+        nctx = len(remaining) - npos
+        how = {}
+        for i, ix in enumerate(remaining):
+            p = explicit[ix]
+            if i < nctx:
+                if p[1] not in CTX_NAMES:
+                    raise Unsupported('Lean constant %s: leading parameter `%s` is not a known context parameter' % (c, p[1]))
+                how[ix] = ('ctx', p, None)
+            elif i < nctx + len(pre): how[ix] = ('fixed', p, pre[i - nctx])
+            elif i < nctx + len(pre) + len(vals): how[ix] = ('val', p, vals[i - nctx - len(pre)])
+            else: how[ix] = ('fixed', p, post[i - nctx - len(pre) - len(vals)])
+        for ix, p in enumerate(explicit):
+            if p[1] in named: how[ix] = ('fixed', p, named[p[1]])
+            elif p[1] in byname: how[ix] = ('val', p, byname[p[1]])
+        return [how[ix] for ix in range(len(explicit))], [explicit[ix][1] for ix in remaining[:nctx]]
+
+    def apply_const(self, c, args, ty, kind=None, pre=(), cargs=(), post=(), named=None, n_override=None):
         sig = self.sy.sigs.get(c)
         if sig is None: raise Unresolved('Lean constant %s not in the signature table' % c)
-        explicit = [p for p in sig['params'] if p[0] == '(']
-        pre = [self.fill_ctx(x) for x in pre]; post = [self.fill_ctx(x) for x in post]
-        nvals = len(args) + len(pre) + len(cargs) + len(post)
-        if len(explicit) < nvals:
-            raise Unsupported('Lean constant %s has %d explicit parameters, call site passes %d' % (c, len(explicit), nvals))
-        ctx = explicit[:len(explicit) - nvals]
+        order, _ = self.layout(c, sig, named or {}, list(pre), list(cargs) + list(args), list(post))
         parts = [c]
-        for p in ctx:
-            if p[1] not in CTX_NAMES:
-                raise Unsupported('Lean constant %s: leading parameter `%s` is not a known context parameter' % (c, p[1]))
-            parts.append(par(self.ctx_term(p[1], kind)))
-        for x in pre:
-            parts.append(par(x)); self.note_consts(x)
-        for a in cargs: parts.append(par(a.term))
-        for a in args: parts.append(par(a.term))
-        for x in post:
-            parts.append(par(x)); self.note_consts(x)
+        saved = self.n_term
+        if n_override is not None: self.n_term = n_override
+        try:
+            for how, p, x in order:
+                if how == 'ctx': parts.append(par(self.ctx_term(p[1], kind)))
+                elif how == 'fixed':
+                    x = self.fill_ctx(x); parts.append(par(x)); self.note_consts(x)
+                else: parts.append(par(x.term))
+        finally:
+            self.n_term = saved
         self.consts_used.add(c)
         return V(' '.join(parts), ty, sig['ret'].startswith('Bnum.Outcome'))
 
@@ -712,6 +796,14 @@ class Translator:
             if src in (U32, INT) and tgt in (U32, USIZE): return V(v.term, tgt)
             if src == USIZE and tgt in (USIZE, U32): return V(v.term, tgt)   # only compile-time sizes (N, BITS) have type usize
             if src == USIZE and False: pass
+            if src[0] == 'prim' and src[1] == 'char' and tgt == U32:
+                return V(v.term, U32)      # a `char` is modelled by its code point: `c as u32` is the identity
+            sname = 'u32' if src == U32 else src[1] if src[0] == 'prim' else None
+            tname = 'u32' if tgt == U32 else tgt[1] if tgt[0] == 'prim' else None
+            if sname in PRIM_BITS_ALL and tname in PRIM_BITS_ALL and not (src == U32 and v.term.isdigit()):
+                # `x as T` between primitive integers: the leaf `PInt.cast bits signed bits'` (Model/Cast.lean)
+                self.consts_used.add('Bnum.PInt.cast')
+                return V('Bnum.PInt.cast %d %s %d %s' % (PRIM_BITS_ALL[sname], 'true' if sname[0] == 'i' else 'false', PRIM_BITS_ALL[tname], par(v.term)), tgt)
             if src[0] == 'prim' and src[1] in PRIM_BITS and tgt == U32:
                 # `x as ExpType` of a primitive integer: the (trusted) leaf `PInt.cast bits signed 32`
                 self.consts_used.add('Bnum.PInt.cast')
@@ -739,8 +831,8 @@ class Translator:
             els = e[4] if e[4][0] == 'block' else ('block', [], e[4], False)
             return self.match(('match', e[2], [(e[1], None, e[3]), (('pwild',), None, els)]), env, seq, tailpos)
         if k == 'match': return self.match(e, env, seq, tailpos)
-        if k == 'call': return self.call(e, env, seq)
-        if k == 'mcall': return self.mcall(e, env, seq)
+        if k == 'call': return self.call(e, env, seq, self.ret_ty if tailpos else None)
+        if k == 'mcall': return self.mcall(e, env, seq, self.ret_ty if tailpos else None)
         if k == 'macro':
             if self.is_panic_macro(e): return V(('panic',), NEVER, True)
             ex = self.expand_expr_macro(e)
@@ -823,6 +915,9 @@ class Translator:
             raise Unsupported('`!` on %s' % ty[0])
         if op == '-':
             if is_big(ty): return self.op_trait('Neg', 'neg', [v])
+            if ty[0] == 'prim' and ty[1] in ('f32', 'f64') and 'float::neg' in self.sy.prim_methods:
+                ent = self.sy.prim_methods['float::neg']
+                return self.apply_const(ent['lean'], [v], ty, named={k2: v2.replace('{F}', Symbols.prim_subst(ty[1])['F']) for k2, v2 in ent.get('named', {}).items()})
             raise Unsupported('unary minus on %s' % ty[0])
         raise Unsupported('unary `%s`' % op)
 
@@ -878,19 +973,36 @@ class Translator:
         return self.call_fn(cands[0], args, [])
 
     # ---------------------------------------------------------------- calls
-    def call(self, e, env, seq):
+    def call(self, e, env, seq, expect=None):
         fn = e[1]
         if fn[0] != 'path': raise Unsupported('call of a non-path expression')
-        if fn[2] is not None: raise Unsupported('qualified-path call `<%s>::…`' % text(fn[2]))
         segs = [s for s in fn[1] if s[0] != 'crate']
+        if fn[2] is not None:
+            # `<u8>::cast_from(x)`: a primitive type written as a qualified path
+            q = [t for t in fn[2]]
+            if len(q) == 1 and q[0].k == 'id' and (q[0].s in Symbols.PRIM_SELF or q[0].s == 'ExpType'):
+                segs = [[q[0].s, None]] + segs
+            else:
+                raise Unsupported('qualified-path call `<%s>::…`' % text(fn[2]))
         names = [s[0] for s in segs]
         args_ast = e[2]
         if len(names) == 1:
             nm = names[0]
             if nm == 'Some':
-                v = self.pure(self.expr(args_ast[0], env, seq), seq)
+                inner = expect[1] if expect is not None and expect[0] == 'opt' else None
+                a0 = args_ast[0]
+                while a0[0] == 'paren': a0 = a0[1]
+                if a0[0] == 'mcall' and inner is not None:
+                    v = self.pure(self.mcall(a0, env, seq, inner), seq)
+                else:
+                    v = self.pure(self.expr(a0, env, seq), seq)
                 return V('some %s' % par(v.term), ('opt', v.ty))
-            if nm in ('Ok', 'Err'): raise Unsupported('Result constructor')
+            if nm in ('Ok', 'Err'):
+                # `Result` whose error value is discarded is modelled as `Option` (Model/Convert.lean): Ok(x) = some x, Err(_) = none
+                if self.ret_ty[0] != 'res': raise Unsupported('Result constructor')
+                if nm == 'Err': return V('none', ('res', ('unk', '?'), ''))
+                v = self.pure(self.expr(args_ast[0], env, seq), seq)
+                return V('some %s' % par(v.term), ('res', v.ty, ''))
             if nm in self.sy.free_fns_special: pass
             f = self.tb.free.get(nm)
             if f is None: raise Unresolved('free function `%s`' % nm)
@@ -910,18 +1022,34 @@ class Translator:
                     raise Unsupported('generic argument `%s`' % text(g))
         args = [self.pure(self.expr(a, env, seq), seq) for a in args_ast]
         tyname = names[-2]; mname = names[-1]
+        # `BUint::<M>::f(..)`: the callee's digit count is another const generic of the impl
+        n_override = None
+        if segs[-2][1] and self.kind_of_type_name(tyname) is not None:
+            g = segs[-2][1]
+            if len(g) == 1 and len(g[0]) == 1 and g[0][0].k == 'id':
+                if g[0][0].s == 'M': n_override = self.use_ctx('m')
+                elif g[0][0].s != 'N': raise Unsupported('generic argument `%s`' % text(g[0]))
+            else:
+                raise Unsupported('generic arguments of `%s`' % tyname)
         if len(names) == 2 and tyname in ('ExpType', 'u32') and len(args) == 1:
             at = strip_ref(args[0].ty)
             cls = 'prim' if at[0] == 'prim' else ('big' if is_big(at) else None)
             ent = self.sy.prim_fns.get('u32::%s<%s>' % (mname, cls)) if cls else None
-            if ent is None: raise Unresolved('function `%s::%s` on %s' % (tyname, mname, norm_ty_key(at)))
-            sub = {'{prim}': at[1] if cls == 'prim' else '', '{ks}': 'true' if at == T_big('II') else 'false'}
-            def fill(t):
-                for a, b in sub.items(): t = t.replace(a, b)
-                return t
-            rty = {'res_u32': ('res', U32, ''), 'opt_u32': ('opt', U32), 'u32': U32}[ent['ty']]
-            self.callees.append('u32::%s<%s>' % (mname, norm_ty_key(at)))
-            return self.apply_const(ent['lean'], args, rty, pre=[fill(x) for x in ent.get('pre', [])], post=[fill(x) for x in ent.get('post', [])])
+            if ent is not None:
+                sub = {'{prim}': at[1] if cls == 'prim' else '', '{ks}': 'true' if at == T_big('II') else 'false'}
+                def fill(t):
+                    for a, b in sub.items(): t = t.replace(a, b)
+                    return t
+                rty = {'res_u32': ('res', U32, ''), 'opt_u32': ('opt', U32), 'u32': U32}[ent['ty']]
+                self.callees.append('u32::%s<%s>' % (mname, norm_ty_key(at)))
+                return self.apply_const(ent['lean'], args, rty, pre=[fill(x) for x in ent.get('pre', [])], post=[fill(x) for x in ent.get('post', [])])
+        if len(names) == 2 and (tyname in Symbols.PRIM_SELF or tyname == 'ExpType'):
+            # associated function of a primitive type: one of the crate's trait impls FOR that type, chosen by the argument types
+            pn = 'u32' if tyname == 'ExpType' else tyname
+            cands = [g for g in self.tb.traitfns.get(mname, []) if g.self_kind is None and g.self_text == pn and self.trait_in_scope(g.trait)]
+            cands = self.uniq_by_lean(self.strict_args(cands, args))
+            if len(cands) != 1: raise Unresolved('function `%s::%s` on %s' % (tyname, mname, ', '.join(norm_ty_key(strip_ref(a.ty)) for a in args)))
+            return self.call_fn(cands[0], args, cargs)
         k = self.kind_of_type_name(tyname)
         if k is not None and len(names) == 2:
             if '%s::%s' % (k, mname) in self.sy.identity:
@@ -930,10 +1058,11 @@ class Translator:
             f = self.tb.inherent.get((k, mname))
             if f is None:
                 cands = [g for g in self.tb.traitfns.get(mname, []) if g.self_kind == k and not g.self_ref and self.trait_in_scope(g.trait)]
+                if len(self.uniq_by_lean(cands)) > 1: cands = self.strict_args(cands, args)
                 cands = self.uniq_by_lean(cands)
                 if len(cands) != 1: raise Unresolved('associated function %s::%s' % (k, mname))
                 f = cands[0]
-            return self.call_fn(f, args, cargs)
+            return self.call_fn(f, args, cargs, n_override)
         if tyname in self.tb.trait_names:
             targs = segs[-2][1]
             cands = []
@@ -973,16 +1102,26 @@ class Translator:
                 out.append(g)
         return out or cands
 
+    def strict_args(self, cands, args):
+        """the candidates whose parameter types are exactly (up to auto-deref) the argument types"""
+        out = []
+        for g in cands:
+            ptys = self.tb.param_types(g)
+            rest = args[1:] if g.recv else args
+            if len(ptys) == len(rest) and all(self.ty_compat(pt, a.ty) for pt, a in zip(ptys, rest)):
+                out.append(g)
+        return out
+
     def uniq_by_lean(self, cands):
         seen = {}
         for c in cands:
-            seen.setdefault(self.sy.lean_for_key(c.key) or c.key, c)
+            seen.setdefault(self.sy.model_id(c.key) or c.key, c)
         return list(seen.values())
 
     def trait_in_scope(self, trait):
         return trait in PRELUDE_TRAITS or trait in self.f.uses or trait == self.f.trait
 
-    def mcall(self, e, env, seq):
+    def mcall(self, e, env, seq, expect=None):
         _, recv_ast, name, gen, args_ast = e
         recv = self.pure(self.expr(recv_ast, env, seq), seq)
         base = strip_ref(recv.ty)
@@ -997,7 +1136,7 @@ class Translator:
                     ast = tr_parse.P(list(g)).whole_expr()
                     if ast[0] != 'lit': raise Unsupported('generic argument `%s`' % text(g))
                     cargs.append(self.expr(ast, env, seq))
-            f = self.resolve_method(recv.ty, name, [recv] + args)
+            f = self.resolve_method(recv.ty, name, [recv] + args, expect)
             if f is None: raise Unresolved('method `%s` on %s' % (name, norm_ty_key(recv.ty)))
             return self.call_fn(f, [recv] + args, cargs)
         if base[0] == 'opt' and name == 'unwrap_unchecked' and not args_ast:
@@ -1005,13 +1144,21 @@ class Translator:
             return V(recv.term, base)
         # methods of primitive values
         args = [self.pure(self.expr(a, env, seq), seq) for a in args_ast]
-        key = '%s::%s' % (base[0] if base[0] != 'prim' else base[1], name)
+        pname = base[0] if base[0] != 'prim' else base[1]
+        key = '%s::%s' % (pname, name)
         ent = self.sy.prim_methods.get(key)
+        if ent is None:
+            # a method of a whole CLASS of primitive types; the type itself is passed to the model as a value ({pty} / {F})
+            for cls in sorted(Symbols.type_classes(pname)):
+                ent = self.sy.prim_methods.get('%s::%s' % (cls, name))
+                if ent is not None: break
         if ent is None: raise Unresolved('method `%s` on %s' % (name, key.split('::')[0]))
-        rty = {'u32': U32, 'bool': BOOL, 'opt_u32': ('opt', U32)}[ent['ty']]
-        return self.apply_const(ent['lean'], [recv] + args, rty)
+        rty = {'u32': U32, 'bool': BOOL, 'opt_u32': ('opt', U32), 'self': base}[ent['ty']]
+        sub = Symbols.prim_subst(pname)
+        named = {k2: re.sub(r'\{(\w+)\}', lambda m: sub.get(m.group(1), m.group(0)), v2) for k2, v2 in ent.get('named', {}).items()}
+        return self.apply_const(ent['lean'], [recv] + args, rty, named=named)
 
-    def resolve_method(self, recv_ty, name, args=None):
+    def resolve_method(self, recv_ty, name, args=None, expect=None):
         """Rust method probing restricted to the crate's own impls for BUint / BInt"""
         chain = [recv_ty]
         while chain[-1][0] == 'ref': chain.append(chain[-1][1])
@@ -1026,13 +1173,16 @@ class Translator:
                 found = [g for g in self.tb.traitfns.get(name, [])
                          if g.recv and self.tb.recv_type(g) == cand and self.trait_in_scope(g.trait)]
                 if args is not None: found = self.by_arg_types(found, args)
+                if expect is not None and len(self.uniq_by_lean(found)) > 1:
+                    # the expected type of the call selects the impl (`Some(self.as_())` in a function returning Option<f32>)
+                    found = [g for g in found if self.tb.ret_type(g) == expect]
                 found = self.uniq_by_lean(found)
                 if len(found) == 1: return found[0]
                 if len(found) > 1:
                     raise Unresolved('ambiguous trait method `%s` (%s)' % (name, ', '.join(g.trait for g in found)))
         return None
 
-    def call_fn(self, f, args, cargs):
+    def call_fn(self, f, args, cargs, n_override=None):
         """call of a crate function `f` (FnItem of a BUint/BInt impl)"""
         key = f.key
         ent = self.sy.lookup(key)
@@ -1045,7 +1195,7 @@ class Translator:
         ret = self.tb.ret_type(f)
         if f.recv == 'refmut' and ret == UNIT:
             ret = strip_ref(self.tb.self_type(f))
-        return self.apply_const(c, args, ret, kind=f.self_kind, cargs=cargs, pre=ent['pre'], post=ent['post'])
+        return self.apply_const(c, args, ret, kind=f.self_kind, cargs=cargs, pre=ent['pre'], post=ent['post'], named=ent['named'], n_override=n_override)
 
     def call_free(self, f, args):
         key = 'fn::' + f.name
